@@ -32,7 +32,8 @@ Admissible(type, form, v) ==
 \* ill-formed shapes: each must be rejected whatever the target type
 BadShapes == {"null", "float", "array", "nested_object", "odd_hex", "non_hex_text", "hex15", "hex17", "bad_base64",
               "envelope_unknown_encoding", "envelope_missing_content", "bool_for_int", "number_for_bytes", "number_2",
-              "string_yes", "ref_without_hash", "ref_bad_index", "ref_odd_txid", "number_too_big", "empty_string"}
+              "string_yes", "ref_without_hash", "ref_bad_index", "ref_odd_txid", "number_too_big", "empty_string",
+              "text_a_euro", "text_euro", "text_emoji", "text_zero_e_acute", "text_0x_euro"}
 \* ... except where the shape happens to be an admissible form of that type
 ShapeIsBadFor(type, shape) ==
     CASE shape = "odd_hex" -> type \in {"Bytes", "Address", "Int", "UtxoRef", "Bool"}
